@@ -84,6 +84,7 @@ func TestVerifC04Streams(t *testing.T) {
 		pLocalRef  = protocol.ID("/verif/c04/localrefused")
 		pRemoteRef = protocol.ID("/verif/c04/remoterefused")
 		pReset     = protocol.ID("/verif/c04/reset")
+		pReadClose = protocol.ID("/verif/c04/readclose")
 	)
 	h1, rm1 := c04MkHost(t, map[protocol.ID]bool{pLocalRef: true})
 	h2, rm2 := c04MkHost(t, map[protocol.ID]bool{pRemoteRef: true})
@@ -97,6 +98,17 @@ func TestVerifC04Streams(t *testing.T) {
 	h2.SetStreamHandler(pLocalRef, echo)
 	h2.SetStreamHandler(pRemoteRef, echo)
 	h2.SetStreamHandler(pReset, func(s network.Stream) { s.Reset() })
+	// a handler that reads until the stream fails and then finishes it with Close, not Reset
+	h2.SetStreamHandler(pReadClose, func(s network.Stream) {
+		buf := make([]byte, 16)
+		s.SetReadDeadline(time.Now().Add(2 * time.Second))
+		for {
+			if _, err := s.Read(buf); err != nil {
+				break
+			}
+		}
+		s.Close()
+	})
 	if err := h1.Connect(context.Background(), peer.AddrInfo{ID: h2.ID(), Addrs: h2.Addrs()}); err != nil {
 		t.Fatal(err)
 	}
@@ -111,17 +123,20 @@ func TestVerifC04Streams(t *testing.T) {
 		cancel bool
 		use    bool // write/read on the stream after opening it
 		raw    int  // 1: open a raw swarm stream and close it before negotiating; 2: send garbage instead of a negotiation
+		end    int  // 1: after a failure finish with Close instead of Reset; 2: reset right after the first write (the remote handler Closes)
 	}
 	atts := []attempt{
-		{0, pOK, false, true, 0},
-		{1, pNoHandler, false, true, 0},
-		{2, pLocalRef, false, true, 0},
-		{3, pRemoteRef, false, true, 0},
-		{4, pReset, false, true, 0},
-		{5, pOK, true, false, 0},
-		{6, pNoHandler, true, false, 0},
-		{7, "", false, false, 1},
-		{8, "", false, false, 2},
+		{0, pOK, false, true, 0, 0},
+		{1, pNoHandler, false, true, 0, 0},
+		{2, pLocalRef, false, true, 0, 0},
+		{3, pRemoteRef, false, true, 0, 0},
+		{4, pReset, false, true, 0, 0},
+		{5, pOK, true, false, 0, 0},
+		{6, pNoHandler, true, false, 0, 0},
+		{7, "", false, false, 1, 0},
+		{8, "", false, false, 2, 0},
+		{9, pReset, false, true, 0, 1},     // the remote resets; this end finishes with Close
+		{10, pReadClose, false, true, 0, 2}, // this end resets; the remote handler finishes with Close
 	}
 	for round := 0; round < rounds; round++ {
 		// a round in random order, some attempts concurrently
@@ -173,7 +188,13 @@ func TestVerifC04Streams(t *testing.T) {
 				s, err = h1.NewStream(ctx, h2.ID(), a.proto)
 			}
 			failed := err != nil
-			if err == nil && a.use {
+			if err == nil && a.end == 2 {
+				s.Write([]byte("ping"))
+				time.Sleep(20 * time.Millisecond)
+				s.Reset()
+				s = nil
+				failed = true
+			} else if err == nil && a.use {
 				s.SetDeadline(time.Now().Add(2 * time.Second))
 				if _, werr := s.Write([]byte("ping")); werr != nil {
 					failed = true
@@ -185,7 +206,7 @@ func TestVerifC04Streams(t *testing.T) {
 				}
 			}
 			if s != nil {
-				if failed {
+				if failed && a.end != 1 {
 					s.Reset()
 				} else {
 					s.Close()
